@@ -20,6 +20,8 @@ type funcResult struct {
 	inlined   []string
 	genS      float64
 	safetyOnly bool
+	x         *vc
+	reach     []*obligation
 }
 
 // verifyFunction generates all obligations for one function under contract.
@@ -105,6 +107,8 @@ func verifyFunction(p *program, fn *ssa.Function, fc *funcContract, safetyOnly b
 		o.inputs = x.inputs
 	}
 	res.script = func(o *obligation) string { return x.script(o) }
+	res.x = x
+	res.reach = x.reach
 	if safetyOnly {
 		var keep []*obligation
 		for _, o := range res.obls {
@@ -174,6 +178,9 @@ func (x *vc) script(o *obligation) string {
 	for _, a := range x.asserts[:o.nAssert] {
 		b.WriteString(a)
 		b.WriteByte('\n')
+	}
+	if strings.Contains(b.String(), "(streq ") {
+		b.WriteString(streqAxioms)
 	}
 	fmt.Fprintf(&b, "(assert %s)\n", o.guard)
 	fmt.Fprintf(&b, "(assert (not %s))\n", o.goal)
